@@ -331,7 +331,7 @@ def _transient_case(plan, scratch, seed, snap, rows, count, case) -> dict:
     _m, ai, k, exc, burst = case
     backend = plan["backend"]
     store = snap.restore()
-    faults = [{"kind": "error", "actor": "rd", "step": k, "exc": exc, "burst": burst}]
+    faults = [{"kind": "error", "proc": "rd", "pstep": k, "exc": exc, "burst": burst}]
     ph = Phase(plan, scratch, backend, seed ^ 0xE, core.Policy(), start=snap.now + 1.0, store=store, faults=faults,
                max_steps=60000)
     sim = ph.sim
